@@ -62,14 +62,22 @@ static sqfs_tree_node_t *create_node(sqfs_inode_generic_t *inode,
 	return n;
 }
 
+/* The tree is built, walked and destroyed recursively. Far beyond any depth
+   that can be addressed by a path, refuse the image rather than run out of
+   stack. */
+#define MAX_TREE_DEPTH (4096)
+
 static int fill_dir(sqfs_dir_reader_t *dr, sqfs_tree_node_t *root,
 		    sqfs_dir_reader_state_t *state,
-		    unsigned int flags)
+		    unsigned int flags, unsigned int depth)
 {
 	sqfs_tree_node_t *n, *prev, **tail;
 	sqfs_inode_generic_t *inode;
 	sqfs_dir_node_t *ent;
 	int err;
+
+	if (depth > MAX_TREE_DEPTH)
+		return SQFS_ERROR_OVERFLOW;
 
 	tail = &root->children;
 
@@ -125,7 +133,7 @@ static int fill_dir(sqfs_dir_reader_t *dr, sqfs_tree_node_t *root,
 				if (err)
 					return err;
 
-				err = fill_dir(dr, n, &nstate, flags);
+				err = fill_dir(dr, n, &nstate, flags, depth + 1);
 				if (err)
 					return err;
 			}
@@ -264,7 +272,7 @@ int sqfs_dir_reader_get_full_hierarchy(sqfs_dir_reader_t *rd,
 		if (ret)
 			goto fail;
 
-		ret = fill_dir(rd, tail, &state, flags);
+		ret = fill_dir(rd, tail, &state, flags, 0);
 		if (ret)
 			goto fail;
 	}
